@@ -124,7 +124,6 @@ package didnuts
 //@     && arg(call (ambassador).findKeyByThumbprint #1, 1) == ret(call (jwk.Key).Thumbprint #1).0
 //@     && arg(call (ambassador).findKeyByThumbprint #1, 2) == controllerVerificationRelationships
 //@     && same(arg(1), proposedDIDDocument) && same(arg(2).Ref, transaction.Ref())
-//@   loop 2 invariant true
 //@   loop 3 invariant exists i int :: 0 <= i && i < len(didControllers) && same(didCtrl, didControllers[i])
 //@   call append #1 requires [candidates-are-capability-invocation-keys-of-a-resolved-controller] same(arg(0), controllerVerificationRelationships) && len(arg(1)) == 1
 //@        && (exists j int :: 0 <= j && j < len(didCtrl.CapabilityInvocation) && same(arg(1)[0], didCtrl.CapabilityInvocation[j]))
@@ -209,9 +208,6 @@ package didnuts
 // document resolved (through resolve, with the caller's metadata) for a DID the document declares.
 //@ func resolveControllers
 //@   prop C09
-//@   loop 1 invariant true
-//@   loop 2 invariant true
-//@   loop 3 invariant true
 //@   call append #1 requires [self-controlled-without-declared-controller] len(doc.Controller) == 0 && len(doc.CapabilityInvocation) > 0
 //@        && same(arg(0), leaves) && len(arg(1)) == 1 && same(arg(1)[0], doc)
 //@   call append #2 requires [self-controlled-when-listing-itself] len(doc.CapabilityInvocation) > 0 && doc.ID.Equals(ctrlDID)
